@@ -468,6 +468,17 @@ func (g *G) RandomChange() *Change {
 	return g.SchemaChange(g.R.Intn(len(Schemas)))
 }
 
+// RandomChangeWide is RandomChange with a quarter of the changes abstracted from generated code
+// (expression, statement and declaration fragments; see abstract.go).
+func (g *G) RandomChangeWide() *Change {
+	if g.R.Intn(4) == 0 {
+		if c := g.AbstractChange([]string{"expr", "stmts", "decl"}[g.R.Intn(3)]); c != nil {
+			return c
+		}
+	}
+	return g.RandomChange()
+}
+
 // InstancePlant makes n instances and m near-misses of the change as plants.
 func (g *G) InstancePlants(c *Change, n, m int) ([]Plant, []string) {
 	var plants []Plant
